@@ -41,6 +41,12 @@ impl Out {
         serde_json::to_writer(&mut self.w, &j).expect("write event");
         self.w.write_all(b"\n").expect("write event");
     }
+    /// a run boundary: the only place where a trace of runs may be split
+    pub fn boundary(&mut self) {
+        if self.shard > 0 && self.in_shard >= self.shard {
+            self.rotate();
+        }
+    }
     fn rotate(&mut self) {
         self.finish_file();
         self.idx += 1;
